@@ -8,6 +8,7 @@ import AvroModel.Drv.Bank
 import AvroModel.Drv.Conc
 import AvroModel.Drv.SchemaGen
 import AvroModel.Drv.File
+import AvroModel.Drv.Schema
 open Avro Avro.Sexp Avro.Drv
 
 def dispatch (prop : String) (op : String) (args : List Sexp) : Verdict :=
@@ -28,6 +29,7 @@ def dispatch (prop : String) (op : String) (args : List Sexp) : Verdict :=
   | "C20" => c20 op args
   | "C07" => c07 op args
   | "C08" => c08 op args
+  | "C14" => c14 op args
   | _ => .bad s!"unknown property {prop}"
 
 partial def loop (prop : String) (h : IO.FS.Stream) (out : IO.FS.Stream) : IO Unit := do
